@@ -254,7 +254,33 @@ func ruleSplitBaseCase(r *Report, rule string) {
 	fi := p.MustFunc(searcherPkg + ".splitInt64Range")
 	r.Fn(fi)
 	info := fi.Pkg.TypesInfo
-	// wrap flags: v := next<bound> < / > <bound>
+	sig := fi.Obj.Type().(*types.Signature)
+	params := map[types.Object]bool{}
+	for k := 0; k < sig.Params().Len(); k++ {
+		params[sig.Params().At(k)] = true
+	}
+	g := buildCFG(info, fi.Decl.Body)
+	// the recursion step: a bound parameter is replaced by the next-precision bound held in a local
+	type step struct {
+		as    *ast.AssignStmt
+		param types.Object
+		next  types.Object
+	}
+	var steps []step
+	ast.Inspect(fi.Decl.Body, func(x ast.Node) bool {
+		as, ok := x.(*ast.AssignStmt)
+		if !ok || as.Tok != token.ASSIGN || len(as.Lhs) != len(as.Rhs) {
+			return true
+		}
+		for k := range as.Lhs {
+			po, no := objOf(info, as.Lhs[k]), objOf(info, as.Rhs[k])
+			if po != nil && no != nil && params[po] && !params[no] {
+				steps = append(steps, step{as, po, no})
+			}
+		}
+		return true
+	})
+	// wrap flags: a boolean local defined once as `next < bound` / `next > bound` for such a (next, bound) pair
 	flags := map[types.Object]string{}
 	ast.Inspect(fi.Decl.Body, func(x ast.Node) bool {
 		as, ok := x.(*ast.AssignStmt)
@@ -265,50 +291,40 @@ func ruleSplitBaseCase(r *Report, rule string) {
 		if !ok {
 			return true
 		}
-		l, rr := exprStr(be.X), exprStr(be.Y)
-		if be.Op == token.LSS && strings.HasPrefix(l, "nextMin") && strings.HasPrefix(rr, "minBound") {
-			flags[objOf(info, as.Lhs[0])] = "lower"
+		lo, ro := objOf(info, be.X), objOf(info, be.Y)
+		op := be.Op
+		if params[lo] && !params[ro] { // bound > next  ==  next < bound
+			lo, ro = ro, lo
+			op = mirrorOp[op]
 		}
-		if be.Op == token.GTR && strings.HasPrefix(l, "nextMax") && strings.HasPrefix(rr, "maxBound") {
-			flags[objOf(info, as.Lhs[0])] = "upper"
+		for _, st := range steps {
+			if lo == st.next && ro == st.param {
+				if op == token.LSS {
+					flags[objOf(info, as.Lhs[0])] = "lower"
+				}
+				if op == token.GTR {
+					flags[objOf(info, as.Lhs[0])] = "upper"
+				}
+			}
 		}
 		return true
 	})
-	r.Ob(rule, fi.Name+"/wrap-flags-computed", fi.Decl.Pos(), len(flags) == 2, "both wrap-around flags (next lower bound < bound, next upper bound > bound) are computed")
-	// the base case: the if whose body appends the final range and breaks
-	okBase := false
-	ast.Inspect(fi.Decl.Body, func(x ast.Node) bool {
-		is, ok := x.(*ast.IfStmt)
-		if !ok {
-			return true
-		}
-		hasBreak := false
-		for _, st := range is.Body.List {
-			if b, ok := st.(*ast.BranchStmt); ok && b.Tok == token.BREAK {
-				hasBreak = true
-			}
-			if _, ok := st.(*ast.ReturnStmt); ok {
-				hasBreak = true
-			}
-		}
-		if !hasBreak {
-			return true
-		}
-		var disj []Fact
-		splitCond(is.Cond, false, &disj) // disjuncts of the condition
+	r.Ob(rule, fi.Name+"/wrap-flags-computed", fi.Decl.Pos(), len(flags) == 2 && len(steps) >= 2, "both wrap-around flags (next lower bound < bound, next upper bound > bound) are computed")
+	// the recursion continues only when neither flag is set (whatever the spelling of the base case)
+	okBase := len(steps) >= 2
+	for _, st := range steps {
 		seen := map[string]bool{}
-		for _, f := range disj {
-			if id, ok := ast.Unparen(f.Expr).(*ast.Ident); ok {
+		for _, fc := range g.GuardsOf(st.as) {
+			if id, ok := ast.Unparen(fc.Expr).(*ast.Ident); ok && fc.Tag == nil && !fc.Truth {
 				if k, ok := flags[info.ObjectOf(id)]; ok {
 					seen[k] = true
 				}
 			}
 		}
-		if seen["lower"] && seen["upper"] {
-			okBase = true
+		if !(seen["lower"] && seen["upper"]) {
+			okBase = false
 		}
-		return true
-	})
+	}
 	r.Ob(rule, fi.Name+"/base-case-includes-both-wrap-flags", fi.Decl.Pos(), okBase, "the split stops (and emits the remaining range at the current shift) when either next bound wrapped around; without the flags an overflowing bound recurses to the top shift and the query matches everything")
 }
 
